@@ -77,6 +77,7 @@ var selfMutants = []selfMutant{
 	{Rule: "R-STACK", File: "json/parse.go", Old: "		if state != ObjectKeyState {\n			p.err = parse.NewErrorLexer(p.r, \"unexpected right brace character\")\n			return ErrorGrammar, nil\n		}\n", New: "", Why: "closing brace pops without checking the container kind", Props: []string{"C10", "C01"}},
 	{Rule: "R-JSONKEY", File: "json/parse.go", Old: "	} else if c == '[' && state != ObjectKeyState {", New: "	} else if c == '[' {", Why: "array accepted in object-key position"},
 	{Rule: "R-BEGINEND", File: "css/parse.go", Old: "		p.state = p.state[:len(p.state)-1]\n		p.keepWS = false\n		return EndAtRuleGrammar", New: "		p.state = p.state[:len(p.state)-1]\n		p.keepWS = false\n		return EndRulesetGrammar", Why: "wrong End unit after pop"},
+	{Rule: "R-EOFNEST", File: "css/parse.go", Only: "cssparser", Silent: true, Old: "	p.tt, p.data = tt, data\n	for {\n		if (tt == SemicolonToken || tt == RightBraceToken) && p.level == 0 || tt == ErrorToken {\n			p.prevEnd = (tt == RightBraceToken)\n			if tt == SemicolonToken {\n				p.pushBuf(tt, data)\n			}\n			return ErrorGrammar\n		} else if tt == LeftParenthesisToken || tt == LeftBraceToken || tt == LeftBracketToken || tt == FunctionToken {\n			p.level++\n		} else if tt == RightParenthesisToken || tt == RightBraceToken || tt == RightBracketToken {\n			p.level--\n		}\n", New: "	p.tt, p.data = tt, data\n	for {\n		switch {\n		case (tt == SemicolonToken || tt == RightBraceToken) && p.level == 0 || tt == ErrorToken:\n			p.prevEnd = (tt == RightBraceToken)\n			if tt == SemicolonToken {\n				p.pushBuf(tt, data)\n			}\n			return ErrorGrammar\n		case tt == LeftParenthesisToken || tt == LeftBraceToken || tt == LeftBracketToken || tt == FunctionToken:\n			p.level++\n		case tt == RightParenthesisToken || tt == RightBraceToken || tt == RightBracketToken:\n			p.level--\n		}\n", Why: "if-chain of parseDeclarationError as a tagless switch (materialised case conditions must not multiply the partitions)"},
 	{Rule: "R-EOFNEST", File: "css/parse.go", Only: "cssparser", Old: "		if tt, data := p.popToken(false); tt != ErrorToken {\n			p.tt = tt\n			p.data = append(p.data, data...)\n		}", New: "		tt, data := p.popToken(false)\n		p.tt = tt\n		p.data = append(p.data, data...)", Why: "end of input merged into the '*' hack"},
 	{Rule: "R-PREC", File: "js/parse.go", Old: "		left = &UnaryExpr{PreIncrToken, p.parseExpression(OpUnary)}\n		precLeft = OpUpdate", New: "		left = &UnaryExpr{PreIncrToken, p.parseExpression(OpUnary)}\n		precLeft = OpUnary", Why: "prefix ++ treated as a UnaryExpression (++a ** b rejected)"},
 	{Rule: "R-INCTX", File: "js/parse.go", Old: "			prevIn := p.in\n			p.in = true\n			left = &IndexExpr{left, p.parseExpression(OpExpr), precLeft, false}", New: "			prevIn := p.in\n			left = &IndexExpr{left, p.parseExpression(OpExpr), precLeft, false}", Why: "index expression parsed without [In]"},
